@@ -3,7 +3,7 @@ from engine.qb import (cmp_forms, AnalysisBroken, estr, unwrap, cval, walk, last
                        atoms_of, var_ranges)
 from rules.common import field_is, has_call, value_sources, some_source, derives
 
-UNITS = ['lib/loop_timerlist.c', 'lib/loop.c', 'lib/loop_poll.c', 'lib/loop_poll_epoll.c']
+UNITS = ['lib/loop_timerlist.c', 'lib/loop.c', 'lib/loop_job.c', 'lib/loop_poll.c', 'lib/loop_poll_epoll.c']
 DECIDES = ('Decides that no narrowing conversion on the way from the timer heap to the kernel poll timeout can turn a pending '
            'expiry into a negative ("forever") or wrapped timeout, that every timeout the loop may block with is timer-derived, '
            'that expiry is decided against a clock value read in the same call with consistent units, and that the state queries '
@@ -14,8 +14,9 @@ RULES = {
     'R3': 'timerlist_expire compares expire_time with a clock value read in the same call (< or <=), takes the heap top, stops at the first unexpired entry; add_duration stores now + duration; ns->ms divisor is 10^6',
     'R5': 'the timer heap stays a min-heap on expire_time: index arithmetic (2i+1, 2i+2, (i-1)/2), entry comparison on expire_time, add sifts up, delete repairs in both directions depending on how the moved entry compares with the removed one',
     'R4': 'expire_time_get / expire_time_remaining return non-zero only when the handle check passed and state == ACTIVE; is_running is expire_time_get > 0',
+    'R6': 'the pending-work count that keeps the loop from sleeping is not corrupted: level->todo is decremented only for items that were counted in it (= C08.R1 todo accounting)',
 }
-FLOORS = {'R1': 5, 'R2': 4, 'R3': 6, 'R4': 5, 'R5': 9}
+FLOORS = {'R1': 5, 'R2': 4, 'R3': 6, 'R4': 5, 'R5': 10, 'R6': 2}
 
 I32_MAX = 2**31 - 1
 
@@ -26,6 +27,8 @@ def run(ctx):
     r3(ctx)
     r4(ctx)
     r5(ctx)
+    from rules import c08
+    c08.todo_accounting(ctx, 'R6')
 
 
 def _int(prog, ty):
@@ -319,6 +322,28 @@ def r5(ctx):
               'heap delete never sifts the moved entry up: after deleting a pending timer the heap top need not be the earliest expiry (late wake-up, out-of-order dispatch)')
     ctx.check('R5', 'delete:sifts-down-when-larger', len(downs) == 1 and d.uncut_path(downs[0], lambda a, fb: a.ls == cv_ and a.op == '>' and a.rc == 0) is None, downs[0] if downs else d,
               'a moved entry that is larger than the removed one is sifted down', 'heap delete never sifts the moved entry down')
+    # the repair is not skipped: every path from entry to a return passes the comparison, except through an edge that says the
+    # removed entry was the last one itself (moved entry == removed entry, or its position == the new size) - nothing was moved then
+    if cmpst:
+        posv = [estr(st.lhs) for st in d.events('STORE') if st.rhs is not None and last_field(unwrap(st.rhs)) == ('timerlist_timer', 'heap_pos')]
+        posv += [ev.d['var'] for ev in d.events('DECL') if ev.d.get('init') is not None and last_field(unwrap(ev.d['init'])) == ('timerlist_timer', 'heap_pos')]
+        entp = d.params[1]['n']
+
+        def was_last(fb, t, lab):
+            if fb.cond is None or lab not in (True, False):
+                return True
+            for a in atoms_of(fb.cond, lab):
+                # position == size / position >= size (exactly the size field, no offset), or moved == removed
+                if a.ls in posv and a.op in ('==', '>=') and last_field(unwrap(a.r)) == ('timerlist', 'size') and unwrap(a.r).get('k') == 'mem':
+                    return False
+                if a.op == '==' and entp in (a.ls, a.rs) and unwrap(a.l).get('k') == 'var' and unwrap(a.r).get('k') == 'var':
+                    return False
+            return True
+        _h, exits, _n = d.search(('entry',), stop=lambda ev: ev.d is cmpst[0].d, edge_filter=was_last)
+        ctx.check('R5', 'delete:repair-never-skipped', not exits, cmpst[0],
+                  'every heap delete compares the moved entry with the removed one (unless the removed entry was the last one itself)',
+                  'a path through timerlist_heap_delete returns without repairing the heap although an entry was moved into the hole: the heap top need not be the '
+                  'earliest expiry any more (late wake-up, out-of-order dispatch)')
     # both branches are reachable from the comparison (the repair really is two-sided)
     for (nm, evs) in (('up', ups), ('down', downs)):
         if evs and cmpst:
